@@ -41,6 +41,14 @@ CHECKS = {
             "finite table along seeded link schedules), quick samples; isolation runs interleave 2-4 differently configured connections incl. "
             "classic mode and check DEFAULT_CONFIG is untouched.",
             "DESIGN.md C06", ""),
+    "C07": ("exploration",
+            "deterministic simulation with a simulated adversarial node: grammar-generated hostile message sequences from a scripted peer against a real default-configuration Connection with canaries, pickle/import spies and a second connection",
+            "Seeded search over adversarial histories (legitimate prefix, then any handler id, any label tree, hostile names, forged / other-"
+            "connection / stale identifiers, unsolicited replies, crafted exception payloads answering the victim's callbacks, reconnects after "
+            "the victim hangs up). Oracle: no canary callable ran, no secret token or canary identifier in the bytes the victim wrote, no pickle "
+            "use, no import or constructor, state unchanged except through legitimate calls, forged/foreign identifiers answered with an "
+            "exception, the second connection unharmed.",
+            "DESIGN.md C07", ""),
     "C08": ("exploration",
             "deterministic simulation: seeded request streams between two live peers (or a scripted reference peer); oracle = frame ledger decoded from a wire tap",
             "Seeded search over request streams (sync/async/nested, up to 8 outstanding, value/reference/exception/unencodable outcomes, "
